@@ -13,6 +13,7 @@ mod verify;
 mod datetime;
 mod pae;
 mod rules;
+mod cjson;
 
 pub fn err_name(e: &in_toto::Error) -> String {
     let d = format!("{:?}", e);
@@ -62,6 +63,7 @@ fn main() {
             "parse_datetime" => datetime::run(sc),
             "pae" => pae::run(sc),
             "rules" => rules::run(sc),
+            "cjson" => cjson::run(sc),
             _ => json!({"outcome": "unsupported-kind"}),
         });
         out.push(r);
